@@ -33,6 +33,11 @@ var readOnlyCalls = []readOnly{
 	{"RenderMerge", func(A, B jd.JsonNode, d jd.Diff, _ []jd.Option) string { return okErr(d.RenderMerge()) }},
 	{"Json", func(A, B jd.JsonNode, d jd.Diff, _ []jd.Option) string { return A.Json() + "|" + B.Json() }},
 	{"Yaml", func(A, B jd.JsonNode, d jd.Diff, _ []jd.Option) string { return A.Yaml() + "|" + B.Yaml() }},
+	{"Json(SET)", func(A, B jd.JsonNode, d jd.Diff, _ []jd.Option) string { return A.Json(jd.SET) + "|" + B.Json(jd.SET) }},
+	{"Yaml(MULTISET)", func(A, B jd.JsonNode, d jd.Diff, _ []jd.Option) string {
+		return A.Yaml(jd.MULTISET) + "|" + B.Yaml(jd.MULTISET)
+	}},
+	{"Json(opts)", func(A, B jd.JsonNode, d jd.Diff, o []jd.Option) string { return A.Json(o...) + "|" + B.Json(o...) }},
 	{"Diff", func(A, B jd.JsonNode, d jd.Diff, o []jd.Option) string { return Dump(A.Diff(B, o...)) }},
 	{"Equals", func(A, B jd.JsonNode, d jd.Diff, o []jd.Option) string { return fmt.Sprint(A.Equals(B, o...), B.Equals(A, o...)) }},
 }
@@ -306,6 +311,28 @@ func init() {
 				if outs[rep] != outs[0] {
 					c.Violation("the same merge patch translated by two fresh processes gives different output", map[string]any{"first": outs[0], "later": outs[rep]})
 					return
+				}
+			}
+			// set / multiset hunks listing several object members: their order must not depend on the process
+			objs := func(n int) []any {
+				out := []any{}
+				for k := 0; k < n; k++ {
+					out = append(out, map[string]any{gen.Pick(c.R, []string{"a", "b", "c"}): float64(c.R.Intn(50)), "n": float64(k)})
+				}
+				return out
+			}
+			sa, sb := ref.ToJSON(objs(2)), ref.ToJSON(append(objs(2), objs(6)...))
+			for _, flag := range []string{"-set", "-mset"} {
+				var first string
+				for rep := 0; rep < 4; rep++ {
+					r := RunCLI(c, BinV2, []string{flag, "sa.json", "sb.json"}, "", map[string]string{"sa.json": sa, "sb.json": sb})
+					c.Feature("cross_process_runs")
+					if rep == 0 {
+						first = r.Stdout
+					} else if r.Stdout != first {
+						c.Violation("the same inputs diffed with "+flag+" by two fresh processes give different output", map[string]any{"a": sa, "b": sb, "first": first, "later": r.Stdout})
+						return
+					}
 				}
 			}
 			res := RunCLI(c, BinV2, []string{"-f", "merge", "a.json", "b.json"}, "", map[string]string{"a.json": s.aText, "b.json": s.bText})
